@@ -24,8 +24,34 @@ MODELLED = ("stage E writers and the top of Survey.xml/xml_model/xml_instance (c
 ASSUMPTIONS = c15.ASSUMPTIONS + ["XML Char production is not part of the Spec parser; the lxml oracle enforces it on real output"]
 
 
+NAME_ALPHA = ["a", "Z", "_", "-", ".", "0", "9", ":", "é", "À", "Ö", "×", "÷", "µ", "ª", "º", "·", "]", "[", " ", "ø", "˿", "Ͱ", ";", "‿", "⁀", "ⁱ",
+              "日", "\U00010000", "\U000EFFFF", "\U000F0000", "\u037e", "\u0300", "\u200c", "\u2070", "\u218f", "\u2190", "\ud7ff", "\uf900", "\ufdcf", "\ufdd0", "\ufffd", "\ufffe"]
+
+
+class IsXmlTagOp(c15.Op):
+    """Model/Names.v is_xml_tag against pyxform.parsing.expression.is_xml_tag on boundary-heavy names."""
+    name = "L.is_xml_tag"
+    imports = ["PX.Model.Names"]
+    fn = "fun s => if is_xml_tag s then [49%N] else [48%N]"
+    in_ty = "list N"
+    n_quick, n_thorough = 600, 6000
+
+    def generate(self, rng, n):
+        from pyxform.parsing.expression import is_xml_tag
+        from common import cstr
+        cases = []
+        for i in range(n):
+            k = rng.choice([1, 1, 2, 3, 4, 6])
+            s = "".join(rng.choice(NAME_ALPHA) for _ in range(k))
+            if rng.random() < 0.3:
+                s = rng.choice(["q", "A", "_"]) + s
+            r = bool(is_xml_tag(s))
+            cases.append({"coq": cstr(s), "expected": "1" if r else "0", "desc": {"name": s}, "class": "accept" if r else "reject"})
+        return cases
+
+
 def ops(tier):
-    return c15.ops(tier)[:3]
+    return c15.ops(tier)[:3] + [IsXmlTagOp()]
 
 
 XML_NAME = re.compile(r"^[A-Za-z_:À-ÖØ-öø-˿Ͱ-ͽͿ-῿‌‍⁰-↏Ⰰ-⿯、-퟿豈-﷏ﷰ-�\U00010000-\U000EFFFF]"
